@@ -147,6 +147,19 @@ pub fn child(args: &[String]) {
     let seed: u64 = args[2].parse().unwrap();
     let n: usize = args[3].parse().unwrap();
     let items = gen_stream(&mut Sm64(seed), n);
+    // ambient logging: with VERIF_TRACE set a logger that discards everything is installed with the maximum level at Trace, so
+    // every log::trace!/debug! argument of the crate is EVALUATED (an argument with a side effect then changes the sketch)
+    if std::env::var("VERIF_TRACE").is_ok() {
+        struct Discard;
+        impl log::Log for Discard {
+            fn enabled(&self, _: &log::Metadata) -> bool { true }
+            fn log(&self, record: &log::Record) { let _ = format!("{}", record.args()); }
+            fn flush(&self) {}
+        }
+        static LOGGER: Discard = Discard;
+        let _ = log::set_logger(&LOGGER);
+        log::set_max_level(log::LevelFilter::Trace);
+    }
     // prelude: other sketchers (other instantiations) run first in this process — process-wide state they
     // leave behind (statics, caches, thread-locals) must not influence the target
     for k in &args[4..] {
@@ -230,6 +243,20 @@ pub fn corr(ctx: &mut Ctx) {
                     if got != ref_big {
                         ctx.oracle_failure(serde_json::json!({"kind":"impl_violates_property","key":format!("purity:{}",kind),
                             "what":"sketch depends on the size of the ambient rayon pool","sketcher":kind,"who":format!("rayon pool of {} threads", threads),"m":mb,"n":nbig,"seed":seed ^ 0xb16}));
+                        break;
+                    }
+                }
+                // a child process with a logger installed at Trace level (ambient logging configuration), small and large input
+                for (mm, nn, sd) in [(m, n, seed), (mb, nbig.min(3000), seed ^ 0xb16)] {
+                    let its = gen_stream(&mut Sm64(sd), nn);
+                    let want = sketch_text(kind, mm, &its);
+                    let out = Command::new(&exe).arg("child-c12").arg(kind).arg(mm.to_string()).arg(sd.to_string()).arg(nn.to_string())
+                        .env("VERIF_TRACE", "1").output().unwrap();
+                    let got = String::from_utf8_lossy(&out.stdout).lines().next().unwrap_or("CRASH").to_string();
+                    ctx.count("context=child process with a Trace-level logger installed");
+                    if got != want {
+                        ctx.oracle_failure(serde_json::json!({"kind":"impl_violates_property","key":format!("purity:{}",kind),
+                            "what":"sketch depends on the ambient log level (a logger installed at Trace level)","sketcher":kind,"who":"process with a Trace-level logger","m":mm,"n":nn,"seed":sd}));
                         break;
                     }
                 }
